@@ -1813,6 +1813,38 @@ def net_tainted(R, g, n, e, depth=4):
     return rec(n, e, depth)
 
 
+def _brace_free(R, g, n, v, depth=2):
+    """The text of value v (at node n) provably contains no brace: a number, a literal without braces, a parameter that
+    every caller fills with such a literal."""
+    if isinstance(v, ast.Constant):
+        return not (isinstance(v.value, (str, bytes)) and ('{' in str(v.value) or '}' in str(v.value)))
+    if isinstance(v, ast.Call) and isinstance(v.func, ast.Name) and v.func.id in ('int', 'len', 'float', 'round', 'bool', 'abs'):
+        return True
+    if isinstance(v, ast.Name) and depth > 0:
+        rd = g_rd(g)
+        ds = rd.defs_at(n, v.id)
+        if not ds:
+            return False
+        for d in ds:
+            if d is g.entry:
+                fi = g.ctx.func
+                callers = R.types.callers.get(fi.qual, [])
+                if not callers:
+                    return False
+                for (cx, call, t) in callers:
+                    a = arg_of(call, fi, v.id)
+                    if a is None:
+                        a = default_of(fi, v.id)
+                    if a is None or not isinstance(a, ast.Constant) or not _brace_free(R, g, n, a, 0):
+                        return False
+                continue
+            val = rd.value_of_def(d, v.id)
+            if val is None or not _brace_free(R, g, d, val, depth - 1):
+                return False
+        return True
+    return False
+
+
 def message_templates(R, RID, minimum=20):
     """WebSocketError.__init__ formats its first argument (msg.format(*args)).  A first argument that already contains
     text chosen by the peer or the OS is therefore used as a format *template*: a brace in it raises
@@ -1839,6 +1871,18 @@ def message_templates(R, RID, minimum=20):
                 if a0 is None or isinstance(a0, ast.Constant):
                     continue
                 why = net_tainted(R, g, n, a0)
+                if why is None:
+                    # text that was formatted already (values interpolated with str.format / % / +) is not a template any
+                    # more: whatever was interpolated - a close reason, a URL, an OS message - may contain braces
+                    for (oe, on) in g_rd(g).origins(n, a0):
+                        interp = None
+                        if isinstance(oe, ast.Call) and isinstance(oe.func, ast.Attribute) and oe.func.attr == 'format' \
+                                and isinstance(oe.func.value, ast.Constant):
+                            interp = list(oe.args) + [k.value for k in oe.keywords]
+                        elif isinstance(oe, ast.BinOp) and isinstance(oe.op, ast.Mod) and isinstance(oe.left, ast.Constant):
+                            interp = list(oe.right.elts) if isinstance(oe.right, ast.Tuple) else [oe.right]
+                        if interp and any(not _brace_free(R, g, on, v_) for v_ in interp):
+                            why = 'already formatted text (%s)' % U(oe)[:60]
                 R.ob(RID, 'message template of %s in %s' % (U(c.func), fi.qual), why is None,
                      'the message template `%s` contains %s; WebSocketError.__init__ formats it again, so a brace in that '
                      'text raises KeyError/IndexError/ValueError instead of %s' % (U(a0), why, U(c.func)), func=fi, node=c,
